@@ -27,17 +27,20 @@ def plan(tier, seed):
           'params': {'n_programs': 600 if tier == 'thorough' else 25}}
 
 
-def deps(prog):
+def deps(prog, sure=False):
+  """sure=True: only dependencies that certainly survive the substitutions (a made predicate is followed to the
+  values of its binding only, not into its functor, whose use of the replaced names is gone)."""
   direct = {}
   for r in prog['rules']:
     direct.setdefault(r['pred'], set()).update(ir.called_preds_rule(r))
   # made predicates depend on their functor and on the values
   for a in prog['annotations']:
     if a[0] == 'make':
-      direct.setdefault(a[1], set()).add(a[2])
+      if not sure:
+        direct.setdefault(a[1], set()).add(a[2])
       for _, y in a[3]:
         if isinstance(y, str):
-          direct[a[1]].add(y)
+          direct.setdefault(a[1], set()).add(y)
   out = {}
 
   def go(p, seen):
@@ -116,7 +119,11 @@ def build(rng):
     return None
   makes = []
   feats = {}
-  made_names = iter(['N1', 'N2', 'N3', 'N4', 'N5', 'N6'])
+  # names of the made predicates sort before / after / between the functors' names in every way (MakeAll walks them sorted)
+  name_pool = ['W1', 'W2', 'W3', 'W4', 'W5', 'W6', 'Zz1', 'Aa0', 'M9', 'Yy', 'Ab2', 'Vv']
+  if rng.random() < 0.6:
+    rng.shuffle(name_pool)
+  made_names = (n for n in name_pool if n not in g.preds)
   made_meta = {}
   if chain is not None:
     top, mid, inner, fam = chain
@@ -181,10 +188,36 @@ def build(rng):
   # a reader of the made predicates
   g.preds, g.order = prog['preds'], prog['order']
   n0 = len(g.rules)
-  for _ in range(rng.choice([0, 1, 1])):
-    g.gen_derived()
+  readers = []
+  for _ in range(rng.choice([0, 1, 1, 2])):
+    readers.append(g.gen_derived())
   prog['rules'] = g.rules
   prog['order'] = list(g.order)
+  # second round: a functor that reaches a made predicate only through an ordinary predicate is applied itself
+  if readers and rng.random() < 0.7:
+    direct2, closure2 = deps(prog, sure=True)
+    made_set = {n for n, _, _ in makes}
+    more = []
+    for f in readers:
+      if prog['preds'][f]['kind'] not in ('derived', 'fun'):
+        continue
+      keys = sorted(closure2.get(f, set()) & set(fam_of))
+      if not (closure2.get(f, set()) & made_set) or not keys:
+        continue
+      key = rng.choice(keys)
+      others = [t for t in fam_of[key] if t != key]
+      if not others:
+        continue
+      name = next(made_names)
+      more.append((name, f, ((key, rng.choice(others)),)))
+      made_meta[name] = dict(prog['preds'][f], made=True)
+      feats['functor_over_made'] = feats.get('functor_over_made', 0) + 1
+    if more:
+      makes = makes + more
+      prog['annotations'] = prog['annotations'] + [('make', n, f, b) for n, f, b in more]
+      for n, _, _ in more:
+        prog['preds'][n] = made_meta[n]
+        prog['order'].append(n)
   prog['features'] = dict(g.used_features, **feats)
   return prog, makes
 
